@@ -35,9 +35,12 @@ static void os_create_hook(void *(*fn)(void *), void *arg) { G_created_fn = (voi
 struct call_rcu_data CT, CC[3], CD;		/* thread's helper, per-CPU helpers, default helper */
 struct call_rcu_data *TBL[3];
 unsigned long G_xchg, G_nest_at_xchg; void *G_xchg_addr;
+unsigned long G_gp, G_unpub_gp[3], G_freed[3], G_free_bad;
 static void evt(int kind, void *addr, int mo, unsigned long val)
 {
-	(void) mo; (void) val;
+	unsigned long k;
+	(void) mo;
+	for (k = 0; k < 3; k++) if (kind == EV_STORE && addr == (void *) &TBL[k] && val == 0) G_unpub_gp[k] = G_gp;	/* helper k unpublished now */
 	if (kind == EV_XCHG) { G_xchg++; G_xchg_addr = addr; G_nest_at_xchg = URCU_TLS(rcu_reader).ctr & URCU_GP_CTR_NEST_MASK; }
 }
 static void q_init(struct call_rcu_data *c) { memset(c, 0, sizeof(*c)); cds_wfcq_init(&c->cbs_head, &c->cbs_tail); }
@@ -113,3 +116,33 @@ void h_call_rcu_public(void)
 	VERIF_ASSERT((URCU_TLS(rcu_reader).ctr & URCU_GP_CTR_NEST_MASK) == w0, "call_rcu: reader nesting restored");
 	VERIF_COVER(exp == &CD && w0 == 0); VERIF_COVER(exp != &CD && exp != &CT && w0 > 0);
 }
+
+/* ---- free_all_cpu_call_rcu_data: unpublish ALL per-CPU helpers, ONE grace period, then free them ---------------- */
+#ifdef FREE_ALL
+void urcu_memb_synchronize_rcu(void) __CPROVER_requires(1) __CPROVER_assigns(G_gp) __CPROVER_ensures(G_gp == __CPROVER_old(G_gp) + 1);
+#define IDX_OF(c) ((c) == &CC[0] ? 0UL : ((c) == &CC[1] ? 1UL : ((c) == &CC[2] ? 2UL : 3UL)))
+/* a helper may be freed only when (a) it is no longer reachable through the per-CPU table and (b) a grace period has
+ * elapsed SINCE it was unpublished: call_rcu() looks the helper up and enqueues on it inside one read-side critical
+ * section (C03.O3.call_rcu_public), so only such a grace period guarantees that nobody is still about to enqueue on it */
+void urcu_memb_call_rcu_data_free(struct call_rcu_data *crdp)
+__CPROVER_requires(IDX_OF(crdp) < 3)
+__CPROVER_assigns(G_freed[0], G_freed[1], G_freed[2], G_free_bad)
+__CPROVER_ensures(G_freed[0] == __CPROVER_old(G_freed[0]) + (crdp == &CC[0] ? 1UL : 0UL) && G_freed[1] == __CPROVER_old(G_freed[1]) + (crdp == &CC[1] ? 1UL : 0UL) && G_freed[2] == __CPROVER_old(G_freed[2]) + (crdp == &CC[2] ? 1UL : 0UL))
+__CPROVER_ensures(G_free_bad == ((TBL[0] != crdp && TBL[1] != crdp && TBL[2] != crdp && G_gp > G_unpub_gp[IDX_OF(crdp)]) ? __CPROVER_old(G_free_bad) : 1UL))
+;
+void h_free_all(void)
+{
+	unsigned long k, occ[3];
+	mk(); VERIF_REQUIRE(L >= 1); per_cpu_call_rcu_data = &TBL[0];
+	for (k = 0; k < 3; k++) { occ[k] = (k < L && TBL[k] != 0); G_freed[k] = 0; G_unpub_gp[k] = ~0UL; }
+	G_gp = 10; G_free_bad = 0;
+	free_all_cpu_call_rcu_data();
+	for (k = 0; k < 3; k++) {
+		VERIF_ASSERT(G_freed[k] == occ[k], "free_all_cpu_call_rcu_data: every per-CPU helper is freed exactly once, nothing else");
+		VERIF_ASSERT(k >= L || TBL[k] == 0, "free_all_cpu_call_rcu_data: every per-CPU entry is cleared");
+	}
+	VERIF_ASSERT(!G_free_bad, "free_all_cpu_call_rcu_data: a helper is freed only after it was unpublished AND a grace period elapsed since (a call_rcu() that already looked it up has finished its enqueue)");
+	VERIF_ASSERT(G_os_locks_held == 0, "free_all_cpu_call_rcu_data: mutex released");
+	VERIF_COVER(L == 3 && occ[0] && occ[2] && !occ[1]); VERIF_COVER(L == 2 && !occ[0] && !occ[1]);
+}
+#endif
